@@ -109,6 +109,10 @@ def factory_table(F):
             for n in walk(s_):
                 if n.get('k') == 'New':
                     news.append(n)
+            if isinstance(s_, dict) and s_.get('k') == 'Return':
+                rvv = strip_all_casts(s_.get('value') or {})
+                if rvv.get('lit') == 'null' or rvv.get('k') == 'New' or rvv.get('id') == (rv or {}).get('id'):
+                    continue   # `return nullptr;` / `return new X;` / `return obj;` end a case like `break`
             if isinstance(s_, dict) and s_.get('k') not in ('Break',) and not (s_.get('k') == 'Bin' and s_.get('op') == '='):
                 others.append(s_)
         cls = None
